@@ -20,6 +20,13 @@ import Tup.Spec.Config
     entries := - | name=value|name=value|…
     c17 ctor <stateDir hex> <tmux 0|1> <file: _ | pathhex:entries> <env entries> <kwargs entries> <overrides entries>
              -> `ok name=value@<provenance hex>|…` | `err key <hex>` | `err keys` | `err invalid <option>`
+    c17 chain <stateDir hex> <step>…         -> `ok <state>#<state>#…` (the state after every step; stops with `err …` at a refusal)
+             the steps act, in order, on ONE configuration object that starts as `TupimageConfig()`:
+               F:<path hex>:<entries>                 override_from_toml_file / _string labelled `set from file <path>`
+               D:<entries>                            override_from_dict (a `provenance` entry labels it)
+               E:<env entries>                        override_from_env
+               C:<tmux 0|1>:<env>:<kwargs>:<overrides>  TupimageTerminal(config=<the object>, **kwargs, config_overrides=…):
+                                                      `applyAfterFile` then `expandTmux`, i.e. `construct` without its first stage
     c17 norm <stateDir hex> <name> <value>   -> `ok value` | `err …`
     c17 dump <entries>                       -> entries                 (`dumpVal` of every value)
     c17 winner <file> <env> <kwargs> <overrides>  (0|1 each)  -> layer | `default`       (specification)
@@ -192,7 +199,48 @@ def layerOf (s : String) : Option (Option Spec.Config.Layer) :=
 
 def optLabel (s : String) : Option (Option String) := if s = "_" then some none else (stringOfHex s).map some
 
+def stateStr (sd : String) (c : Cfg) : String :=
+  "|".intercalate (c.map fun e => s!"{e.name}={valStr e.val}@{hexOfString (c.provenance sd e.name)}")
+
+def envOf (es : List (String × Val)) : List (String × String) :=
+  es.filterMap fun (k, v) => match v with | .sc (.str s) => some (k, s) | _ => none
+
+/-- one step on a configuration object (request `chain`); `none` = malformed request -/
+def chainStep (sd : String) (c : Cfg) (step : String) : Option (Except CErr Cfg) :=
+  match step.splitOn ":" with
+  | ["F", p, es] => do
+      let p ← stringOfHex p
+      let es ← parseEntries es
+      pure (applyFile sd c p es)
+  | ["D", es] => do
+      let es ← parseEntries es
+      pure (applyDict sd c es)
+  | ["E", es] => do
+      let es ← parseEntries es
+      pure (applyEnv sd c (envOf es))
+  | ["C", tmux, env, kw, ov] => do
+      let env ← parseEntries env
+      let kw ← parseEntries kw
+      let ov ← parseEntries ov
+      pure ((applyAfterFile sd { file := none, env := envOf env, kwargs := kw, overrides := ov } c).map
+        (expandTmux sd (tmux = "1")))
+  | _ => none
+
+def chain (sd : String) : Cfg → List String → Option (List String)
+  | _, [] => some []
+  | c, s :: rest =>
+    match chainStep sd c s with
+    | none => none
+    | some (.error e) => some [cerrStr e]
+    | some (.ok c') => (chain sd c' rest).map (stateStr sd c' :: ·)
+
 def handleC17 : List String → String
+  | "chain" :: sd :: steps =>
+      match stringOfHex sd with
+      | some sd => (match chain sd (Cfg.init sd) steps with
+          | some out => "ok " ++ "#".intercalate out
+          | none => "bad")
+      | none => "bad"
   | ["ctor", sd, tmux, file, env, kw, ov] =>
       match stringOfHex sd, parseEntries env, parseEntries kw, parseEntries ov with
       | some sd, some env, some kw, some ov =>
